@@ -2,6 +2,7 @@ package main
 
 import (
 	"fmt"
+	"go/ast"
 	"go/types"
 	"sort"
 	"strconv"
@@ -194,6 +195,16 @@ func calleeName(c *ssa.CallCommon) string {
 			return x.Comment
 		}
 		break
+	}
+	// a local holding the function value: its source-level name (debug info)
+	if refs := c.Value.Referrers(); refs != nil {
+		for _, r := range *refs {
+			if dr, ok := r.(*ssa.DebugRef); ok && !dr.IsAddr {
+				if id, ok := dr.Expr.(*ast.Ident); ok {
+					return id.Name
+				}
+			}
+		}
 	}
 	return c.Value.Name()
 }
